@@ -1,8 +1,10 @@
 package mon
 
 import (
+	"bytes"
 	"math"
 	"math/big"
+	"strings"
 	"sync"
 
 	"verifh/gen"
@@ -64,6 +66,16 @@ func cliDirectedDocs() [][]*model.Value {
 		}
 		cliDocs = append(cliDocs, nulls, []*model.Value{model.ListV(model.CloneAll(nulls)...)})
 		cliDocs = append(cliDocs, LookalikeStreams()...)
+		// single scalars larger than any plausible output buffer (32 KiB, 64 KiB), between small values
+		for _, n := range []int{32767, 32768, 40000, 70000} {
+			digits := strings.Repeat("1234567890", n/10+1)[:n]
+			bigInt, _ := new(big.Int).SetString(digits, 10)
+			cliDocs = append(cliDocs,
+				[]*model.Value{model.Int64V(1), model.StrV(strings.Repeat("s", n)), model.Int64V(2), model.BlobV(bytes.Repeat([]byte{0xAB}, n)), model.SymV(model.T("x"))},
+				[]*model.Value{model.SymV(model.T("a")), model.SymV(model.T(strings.Repeat("y", n))), model.IntV(bigInt), model.ClobV(bytes.Repeat([]byte("c"), n)), model.Int64V(3)},
+				[]*model.Value{model.ListV(model.StrV(strings.Repeat("t", n)), model.IntV(new(big.Int).Neg(bigInt))), model.StructV(model.BlobV(bytes.Repeat([]byte{1}, n)).WithField(model.T("b"))), model.Int64V(4)},
+			)
+		}
 	})
 	return cliDocs
 }
